@@ -185,8 +185,10 @@ def h_finished_omitted_fault_location(ctx, cfg, via):
     ctx.assume(sym_or(cond == 0, cond == 11))
     fl, _, _ = sym_entity_tlv(ctx, "fl", 1)
     deliv, fstat = ctx.flag("delivery"), ctx.int("fstat", 0, 3)
+    caller_params = None
     if via == "ctor":
-        o = FinishedPdu(conf, FinishedParams(cond, deliv, fstat, [], fl))
+        caller_params = FinishedParams(cond, deliv, fstat, [], fl)
+        o = FinishedPdu(conf, caller_params)
     elif via == "fault_location":
         o = FinishedPdu(conf, FinishedParams(cond, deliv, fstat, [], None))
         o.fault_location = fl
@@ -198,6 +200,15 @@ def h_finished_omitted_fault_location(ctx, cfg, via):
     ctx.holds("data-field length inside the octets == octets after the header", ((raw[1] << 8) | raw[2]) == len(raw) - hdr_len(v))
     e, u = call(FinishedPdu.unpack, raw)
     ctx.holds("the packed octets decode", e is None, exc_name(e))
+    if caller_params is not None:
+        ctx.holds("the caller's FinishedParams still hold what the caller put in", caller_params.fault_location is fl and sym_and(
+            caller_params.condition_code == cond, len(caller_params.file_store_responses) == 0))
+    # the omitted fault location is not lost: switching to an error code packs it again
+    c2 = sym_cond(ctx, "later_cond", exclude=(0, 11))
+    o.condition_code = c2
+    r2 = o.pack()
+    ctx.holds("after switching to an error condition code the fault location is packed again", sym_and(
+        o.packet_len == len(r2), len(r2) == len(raw) + 3, o.fault_location is not None))
 
 
 def h_pus(ctx, which, n0, n1):
@@ -216,6 +227,15 @@ def h_pus(ctx, which, n0, n1):
         o.tm_data = ctx.octets("mid", 3)
         o.tm_data = d1
         unpack = lambda r: PusTm.unpack(r, 2)  # noqa: E731
+    if which == "tm":
+        # the same setter on an object that came out of the decoder / the composite constructor
+        for name, o2 in (("decoded", PusTm.unpack(PusTm(*args, d0, apid, sc).pack(), 2)),
+                         ("composite", PusTm.from_composite_fields(PusTm(*args, d0, apid, sc).space_packet_header,
+                                                                   PusTm(*args, d0, apid, sc).pus_tm_sec_header, d0))):
+            o2.tm_data = d1
+            r2 = o2.pack()
+            ctx.holds("tm_data setter on a %s packet: octets == fresh, length == packed" % name,
+                      sym_and(r2 == fresh.pack(), o2.packet_len == len(r2)), "packet_len=%s len=%s" % (o2.packet_len, len(r2)))
     raw = o.pack()
     ctx.holds("reported length == number of packed octets", o.packet_len == len(raw), "packet_len=%s len=%s" % (o.packet_len, len(raw)))
     ctx.holds("length field inside the octets == total - 7", ((raw[4] << 8) | raw[5]) == len(raw) - 7)
